@@ -146,7 +146,7 @@ class Link(object):
     def raise_fault(self, f, op, timeout):
         kind = f['kind']
         E = self.exc
-        if kind in ('timeout', 'wtimeout'):
+        if kind in ('timeout', 'wtimeout', 'wdelivered'):
             if timeout and timeout > 0 and not f.get('old'):
                 self.clock.advance(timeout)
             raise E.TcpTimeoutException('%s timed out (injected)' % op)
@@ -348,6 +348,9 @@ class Link(object):
         actor = waiter.actor()
         waiter.yield_point('write')
         idx, f = self.begin('w', len(data), timeout, actor)
+        if f is not None and f.get('kind') == 'wdelivered':
+            self.deliver(data, actor)
+            f = dict(f, kind='wtimeout')
         if f is not None and f.get('kind') != 'empty':
             try:
                 self.raise_fault(f, 'w', timeout)
@@ -505,6 +508,9 @@ class AsyncOps(object):
         actor = self.actor()
         await self.maybe_yield()
         idx, f = link.begin('w', len(data), timeout, actor)
+        if f is not None and f.get('kind') == 'wdelivered':
+            link.deliver(data, actor)
+            f = dict(f, kind='wtimeout')
         if f is not None and f.get('kind') != 'empty':
             try:
                 link.raise_fault(f, 'w', timeout)
